@@ -164,12 +164,32 @@ def find_fn_norm(F, npath):
     raise MissingAnchor("function %s" % npath)
 
 
+def _display_alternative(e):
+    """second accepted form of Display for Hash: `write!(f, "{}", hex)` -- write_fmt with the template of exactly one default
+    placeholder and the hex string as its only (Display) argument.  A fresh Arguments carries its own default spec, so the outer
+    formatter's width / precision are ignored, exactly as with write_str.  (f.pad(hex) and hex.fmt(f) are NOT equivalent: they
+    apply the caller's precision as truncation.)"""
+    if not (isinstance(e, tuple) and e[0] == "call" and norm_path(e[1]).endswith("Formatter::<'a>::write_fmt") and len(e[2]) == 2 and unify(P.arg("f"), e[2][0]) is not None):
+        return False
+    a = e[2][1]
+    if not (isinstance(a, tuple) and a[0] == "call" and norm_path(a[1]).endswith("Arguments::<'a>::new") and len(a[2]) == 2):
+        return False
+    tmpl, args = a[2]
+    if not (tmpl[0] == "const" and tmpl[2] == b"\xc0\x00" and args[0] == "array" and len(args[1]) == 1):
+        return False        # the compiled template of "{}": one placeholder with the default spec, no literal text
+    arg = args[1][0]
+    return arg[0] == "call" and arg[1].endswith("::new_display") and find_sub(arg, P.call("Hash::to_hex", ("arg", 1, "self"))) is not None
+
+
 def rule_T3_hash(ctx, F):
     for path, pat, text in FORWARD:
         fn = find_fn_norm(F, path)
         e = val(fn.expr_local(0))
         ncalls = sum(1 for _ in fn.calls())
         want_calls = count_calls(e)
+        if path.endswith("Display>::fmt") and unify(pat, e) is None and _display_alternative(e):
+            ctx.ob(ncalls == want_calls, "forward:%s" % path, fn.loc, "%s is write!(f, \"{}\", self.to_hex()...) (%d call(s) in body, %d in the returned expression)" % (path, ncalls, want_calls))
+            continue
         ctx.ob(unify(pat, e) is not None and ncalls == want_calls, "forward:%s" % path, fn.loc,
                "%s returns %s (%d call(s) in body, %d in the returned expression) ; required exactly %s" % (path, show(e)[:200], ncalls, want_calls, text))
     # Debug prints the hex string
